@@ -265,6 +265,8 @@ const prelude = `(declare-sort Str 0)
 (assert (forall ((b Str) (l1 Int) (h1 Int) (l2 Int) (h2 Int)) (! (=> (and (<= 0 l1) (<= l1 h1) (<= 0 l2) (<= l2 h2) (<= h2 (- h1 l1))) (= (ssub (ssub b l1 h1) l2 h2) (ssub b (+ l1 l2) (+ l1 h2)))) :pattern ((ssub (ssub b l1 h1) l2 h2)))))
 (assert (forall ((b Str) (l Int) (h Int)) (! (=> (and (<= 0 l) (<= l h) (<= h (slen b))) (= (slen (ssub b l h)) (- h l))) :pattern ((ssub b l h)))))
 (assert (forall ((b Str)) (! (= (ssub b 0 (slen b)) b) :pattern ((ssub b 0 (slen b))))))
+(assert (forall ((a Str) (b Str) (c Str)) (! (= (sconcat (sconcat a b) c) (sconcat a (sconcat b c))) :pattern ((sconcat (sconcat a b) c)))))
+(assert (forall ((s Str)) (! (=> (= (slen s) 0) (= s empty_str)) :pattern ((slen s)))))
 (define-fun nil_slice () Slice (mk_slice 0 0 0 0))
 (define-fun nil_iface () Iface (mk_iface 0 0))
 (define-fun go_div ((x Int) (y Int)) Int (ite (>= x 0) (ite (> y 0) (div x y) (- (div x (- y)))) (ite (> y 0) (- (div (- x) y)) (div (- x) (- y)))))
